@@ -1098,7 +1098,7 @@ def make_reference(trees):
             f2 = copy.deepcopy(fn)
             webs.split(f2, fn_scope_locals(f2))
             h, order = blind(f2)
-            comps = sorted({stmt_blind(ast.Expr(value=c), set(local_names(fn)))[0] for c in ast.walk(fn) if isinstance(c, (ast.ListComp, ast.DictComp, ast.SetComp))})
+            comps = sorted({stmt_blind(ast.Expr(value=c), set(local_names(fn)))[0] for c in [ast.ListComp(elt=g.elt, generators=g.generators) if isinstance(g, ast.GeneratorExp) else g for g in ast.walk(fn)] if isinstance(c, (ast.ListComp, ast.DictComp, ast.SetComp))})
             out[key] = dict(blind=h, names=order, stmts=stm, plain=blind(fn)[0], comps=comps)
     mods = {mod: sorted({t.id for n in tree.body if isinstance(n, ast.Assign) for t in n.targets if isinstance(t, ast.Name)}) for mod, tree in trees.items()}
     return dict(functions=out, module_names=mods)
